@@ -85,6 +85,57 @@ let () =
         (if wfb r5 r4 r3 r2 r1 && wfb s5 s4 s3 s2 s1 then 1 else 0) (hz (c_computeDimension f5 f4 f3 f2 f1))
     | _ -> failwith "c09rt")
 
+(* ---------------- C11 ---------------- *)
+let rec list_take n l = if n <= 0 then [] else match l with [] -> [] | x :: r -> x :: list_take (n - 1) r
+let rec list_drop n l = if n <= 0 then l else match l with [] -> [] | _ :: r -> list_drop (n - 1) r
+let () =
+  (* huffm <stateNum> <symbols> <bytes written by the implementation>:
+     the tree is the implementation's (parsed back from its table), everything else is the model's *)
+  reg "huffm" (fun a -> match a with
+    | [st; seq; bytes] ->
+      let s = zlist_of_string seq and b = zlist_of_string bytes in
+      let n = List.length s in
+      let node_count = from_be (list_take 4 b) and st_half = from_be (list_take 4 (list_drop 4 b)) in
+      let nc = int_of_z node_count in
+      let w = idx_width (z_of_int 256) (z_of_int 65536) node_count in
+      let tlen = int_of_z (tree_bytes_len w node_count) in
+      let tb = list_take tlen (list_drop 8 b) in
+      let payload = list_drop (8 + tlen) b in
+      let rows = parse_tree_bytes w (nat_of_int nc) tb in
+      (match parse_seq (nat_of_int (nc + 1)) rows with
+       | Some (t, []) ->
+         let rows_ok = (pad t Z0 = rows) && (tree_bytes w (List.hd tb) (pad t Z0) = tb) in
+         (* leaves must be distinct and cover the sequence (tree_ok, with a hash table for large inputs) *)
+         let lv = leaves t in
+         let tok =
+           if List.length lv * n <= 20_000_000 then tree_ok t s
+           else begin
+             let h = Hashtbl.create 1024 in
+             let dup = ref false in
+             List.iter (fun c -> if Hashtbl.mem h c then dup := true else Hashtbl.add h c ()) lv;
+             (not !dup) && List.for_all (fun c -> Hashtbl.mem h c) s
+           end in
+         (* code table from the model's [codes]; lookups through a hash table (glue) *)
+         let h = Hashtbl.create 1024 in
+         List.iter (fun (c, p) -> Hashtbl.replace h c p) (codes t);
+         let lk c = Hashtbl.find_opt h c in
+         (match encode_with lk s with
+          | None -> "tree_ok=0 no-code"
+          | Some bits ->
+            let pb = pack_bits bits in
+            let plen = List.length pb in
+            let pay_ok = (list_take plen payload = pb) && List.length payload = plen in
+            let d1 = decode t (pb @ [z_of_int 0xAA; z_of_int 0x55]) (nat_of_int n) in
+            let mb = List.fold_left (fun m (_, p) -> max m (List.length p)) 0 (codes t) in
+            let d2 = decode_msst19 t (z_of_int mb) (pb @ [Z0; Z0; Z0]) (nat_of_int n) in
+            Printf.sprintf "tree_ok=%d rows_ok=%d nodes=%x half_ok=%d payload_ok=%d size_ok=%d dec_ok=%d dec2_ok=%d maxbits=%x bits=%x"
+              (if tok then 1 else 0) (if rows_ok then 1 else 0) nc
+              (if hz st_half = hz (z_of_int (int_of_string ("0x" ^ st) / 2)) then 1 else 0)
+              (if pay_ok then 1 else 0) (if 8 + tlen + plen = List.length b then 1 else 0)
+              (if d1 = s then 1 else 0) (if d2 = s then 1 else 0) mb (List.length bits))
+       | _ -> "tree_ok=0 unparsable-table")
+    | _ -> failwith "huffm")
+
 let () =
   (try
     while true do
